@@ -258,6 +258,13 @@ impl<const N: usize> OrSWotSet<N> {
             self.check_self_then_insert_to(*key, *ts, &mut removals);
         }
 
+        // `dead` is a std HashMap: pin the (otherwise arbitrary) output order.
+        #[cfg(datacake_verif)]
+        {
+            changes.sort();
+            removals.sort();
+        }
+
         (changes, removals)
     }
 
@@ -384,6 +391,9 @@ impl<const N: usize> OrSWotSet<N> {
                 deleted_keys.push((k, stamp));
             }
         }
+
+        #[cfg(datacake_verif)]
+        deleted_keys.sort();
 
         deleted_keys
     }
